@@ -79,6 +79,19 @@ func genPackageWorld(t *rapid.T, prop string, allowInvalid bool, chunk []string)
 		case k == 12:
 			sc.Steps = append(sc.Steps, Step{Op: "restart"})
 		case k == 13:
+			if rapid.Bool().Draw(t, "pausedEdit") {
+				// an edit made while the package is paused has to reach the deployment once it is unpaused
+				sc.Steps = append(sc.Steps, Step{Op: "quiesce"}, Step{Op: "pausePackage", On: true})
+				for j := rapid.IntRange(0, 2).Draw(t, "pausedPasses"); j > 0; j-- {
+					sc.Steps = append(sc.Steps, GenReconcile(t, ctrls))
+				}
+				sc.Steps = append(sc.Steps, Step{Op: "editPackage", I: rapid.IntRange(0, len(sc.Pkgs)-1).Draw(t, "img"), J: rapid.SampledFrom(cfgs).Draw(t, "cfg")})
+				for j := rapid.IntRange(0, 2).Draw(t, "pausedPasses2"); j > 0; j-- {
+					sc.Steps = append(sc.Steps, GenReconcile(t, ctrls))
+				}
+				sc.Steps = append(sc.Steps, Step{Op: "pausePackage", On: false}, Step{Op: "quiesce"})
+				continue
+			}
 			sc.Steps = append(sc.Steps, Step{Op: "pausePackage", On: rapid.Bool().Draw(t, "on")})
 		case k == 14:
 			// somebody else writes the ObjectDeployment (or Package, ObjectSet ...) between PKO's read and its write
